@@ -573,3 +573,33 @@ pub fn gen_king_safety(sq: usize) {
     g.board[sq].unwrap().get_moves(|_m| { if n < 200 { n += 1; } }, &g, mk::pos_of(sq));
     vcover!(n >= 1, "a king move reachable");
 }
+
+/// C15 / C01 (slice verif_push_closure: the closure `get_moves` hands to the generators, verbatim).
+/// Assumption A6 says a position offers fewer than 256 candidates; for EVERY list length A6 allows
+/// (0..=255) the unchecked push stays inside the buffer (arrayvec's capacity assertion and CBMC's
+/// pointer checks), appends exactly the candidate and leaves the earlier entries alone.  The buffer
+/// type is the one in get_moves' signature, so a smaller buffer fails here.
+#[cfg_attr(kani, kani::proof)]
+#[cfg_attr(verif_replay, test)]
+pub fn push_closure_contract() {
+    let mut moves: ArrayVec<Move, 256> = ArrayVec::new();
+    let cap = moves.capacity();
+    let n = nd::usize_below(256);
+    let k = nd::usize_below(256);
+    let witness = sym_move(nd::u8_in(0, 4));
+    let cand = sym_move(nd::u8_in(0, 4));
+    #[cfg(not(kani))]
+    eprintln!("move buffer of capacity {} holding {} candidates; one more is pushed", cap, n);
+    assert!(n < cap, "C15: the move buffer is smaller than the 256 slots the candidate bound (A6) needs: unchecked push out of range");
+    unsafe {
+        // only the slots that are read back are initialised (slot k here, slot n by the push)
+        moves.set_len(n);
+        if k < n { moves.as_mut_ptr().add(k).write(witness); }
+    }
+    Game::verif_push_closure(&mut moves, cand);
+    assert!(moves.len() == n + 1, "C01: the push closure does not add exactly one candidate");
+    assert!(moves[n] == cand, "C01: the push closure stores another move than the one generated");
+    if k < n { assert!(moves[k] == witness, "C01: the push closure disturbs an earlier candidate"); }
+    vcover!(n == 255, "list of 255 candidates (A6's bound) reachable");
+    vcover!(n == 0, "empty list reachable");
+}
